@@ -42,8 +42,10 @@ PROPS["C06"] = {
                   "entry. The stdlib mixins get/__contains__/keys/values/items/pop/popitem/clear/setdefault and the view iterators are "
                   "verified from the running interpreter's _collections_abc.py through those contracts, with termination (decreases / "
                   "finite snapshot) and the iterator-stability frame condition that the original values()/items() violated.",
-    "level_note": "Trusted: pyvc, z3, dict semantics. MutableMapping.update and Mapping.__eq__ are covered by the bounded layer only "
-                  "(dict() construction from pairs is outside the engine); their termination rests on ItemsView.__iter__, which is proved.",
+    "level_note": "Trusted: pyvc, z3, dict semantics. Mapping.__eq__ is covered by the bounded layer only "
+                  "(dict() construction from an items view is outside the engine); its termination rests on ItemsView.__iter__, which is proved. "
+                  "MutableMapping.update(pairs) is proved to terminate, keep the invariant (capacity), store the last pair and invent no key; which "
+                  "earlier entries survive (the fold of the store contract) is enumerated by the bounded layer.",
 }
 PROPS["C07"] = {
     "units": ["contracts.c07_lfu", "contracts.c08_lists"],
@@ -71,7 +73,7 @@ PROPS["C09"] = {
                   "store/delete/lookup/get/in/pop/setdefault are the builtin set / dict operations on the view; the constructors give "
                   "set(init) / dict(init) for every finite initialiser (empty, unsorted, repeated keys - later pairs win); foreign-typed "
                   "probes report absent (False / KeyError) with no write to the structure (separate unit with a foreign key sort).",
-    "level_note": "Trusted: pyvc, z3, the library contracts named in trusted_base; numeric keys are SMT reals (no NaN). MutableMapping.update, "
+    "level_note": "Trusted: pyvc, z3, the library contracts named in trusted_base; numeric keys are SMT reals (no NaN). MutableMapping."
                   "update(pairs) / update(dict) (dict.update: last pair of a key wins, other entries kept, nothing else added), popitem and clear are "
                   "verified from the stdlib source; update(**kwds) is excluded (string keys); the mapping views over SortedMap are covered by the bounded layer only.",
 }
